@@ -23,6 +23,14 @@ type opaqueObj struct {
 var opaqueTypes = map[string]types.Type{}
 var opaqueMu sync.Mutex
 
+// lockYield: under Config.PreemptAtLocks a goroutine of the code under test gives the others a turn before every mutex
+// acquire and after every release, so that two critical sections of one goroutine are separated by the other's.
+func (e *Exec) lockYield() {
+	if e.cfg.PreemptAtLocks && e.cur != nil {
+		e.runPendingTasks()
+	}
+}
+
 func opaqueType(name string) types.Type {
 	opaqueMu.Lock()
 	defer opaqueMu.Unlock()
@@ -231,6 +239,7 @@ func init() {
 	for _, n := range []string{"(*sync.Mutex).Lock", "(*sync.RWMutex).Lock"} {
 		reg(n, func(e *Exec, fn *ssa.Function, a []Value) Value {
 			p := a[0].(Ptr)
+			e.lockYield()
 			if e.lockState[p.Obj] != 0 {
 				// held by another goroutine that is blocked: wait for it; nobody left to release it = deadlock
 				if !e.block(func() bool { return e.lockState[p.Obj] == 0 }, false) {
@@ -249,13 +258,18 @@ func init() {
 				e.definitePanic("sync", "unlock of unlocked mutex")
 			}
 			e.lockState[p.Obj] = 0
+			e.lockYield()
 			return nil
 		})
 	}
 	reg("(*sync.RWMutex).RLock", func(e *Exec, fn *ssa.Function, a []Value) Value {
 		p := a[0].(Ptr)
+		e.lockYield()
 		if e.lockState[p.Obj] < 0 {
-			e.end("limit", "read lock while write-locked (self-deadlock) at "+e.where())
+			// write-locked by another goroutine that is parked: wait for it
+			if !e.block(func() bool { return e.lockState[p.Obj] >= 0 }, false) {
+				e.end("limit", "read lock while write-locked (self-deadlock) at "+e.where())
+			}
 		}
 		e.lockState[p.Obj]++
 		return nil
@@ -266,6 +280,7 @@ func init() {
 			e.definitePanic("sync", "RUnlock of unlocked RWMutex")
 		}
 		e.lockState[p.Obj]--
+		e.lockYield()
 		return nil
 	})
 	// sync.WaitGroup: a counter per object; Wait blocks until it is zero
